@@ -171,6 +171,14 @@ def C10(run):
     run.assumptions += ["block numbers are passed to TLC as <<hi, lo>> pairs (32-bit integers)", "content compared as hex strings"]
 
 
+def _st_forkresume(run, trf):
+    def mutu(r):
+        r["obs"]["resp"] = r["obs"]["resp"][1:]
+    run.selftest("TraceSystem", trf, "forked-cursor-undo-signal-dropped",
+                 lambda r: r.get("ev") == "forkresume" and r["resolved"]["id"] and not r["obs"].get("err") and r["obs"]["resp"] and
+                 r["obs"]["resp"][0]["kind"] == "undo", mutu, start=lambda r: r.get("ev") == "prog", xss="512m")
+
+
 def C12(run):
     q = run.tier == "quick"
     run.model_check("MCPlan", "MCPlan_quick.cfg" if q else "MCPlan_thorough.cfg", workers=16, timeout=2400)
@@ -191,6 +199,14 @@ def C12(run):
                        "from the full ranges of the property text; each pushed through exec.NewOutputModuleGraph, "
                        "pipeline.BuildRequestDetails, ValidateRequestStartBlock and plan.BuildTier1RequestPlan in tier1's order. "
                        "Non-trivial = accepted request that needs back-filling (BuildStores or ReadExecOut present); distinct by content.")
+    # end to end: the client of a fork history reconnects through the REAL tier1 entry point with the cursor of a message it
+    # received (preferably one whose block was orphaned afterwards): undo signal for the junction first, then the canonical
+    # chain right after it (record "forkresume" of the forks driver, judged by ForkResumeFails of TraceSystem.tla)
+    trf, _ = _system_trace(run, "C12:", "forks", n=(12 if q else 400))
+    _st_forkresume(run, trf)
+    run.cov["rule"] += (" Plus (forks driver) reconnections with the cursor of a delivered message of a fork history - orphaned or "
+                        "canonical block, data or undo message - through service.TestBlocks with a cursor resolver answering from the "
+                        "fork tree; the junction is recomputed in TLA+ from the parent links.")
     run.assumptions += ["a pure irreversible-step cursor whose block differs from its LIB is not generated (the server never emits one; "
                         "the code resolves it to start block 0 silently - noted in DESIGN.md)",
                         "requests with stop <= start (other than the rejected start = stop) are outside the stated space"]
@@ -501,13 +517,16 @@ def C03(run):
                     return
         run.selftest("TraceSystem", trf, "fork-message-id", lambda r: r.get("ev") == "forkrun" and not r["obs"].get("err") and
                      any(m["kind"] == "data" for m in r["obs"]["resp"]), mutf, start=lambda r: r.get("ev") == "prog", xss="512m")
+        _st_forkresume(run, trf)
     run.cov["rule"] = ("fork histories: random fork trees over 2..5 heights (1..2 branches per height, extra extensions, and 'ping-pong' "
                        "histories where two branches alternately overtake each other so that the same blocks are applied, undone, "
                        "re-applied and undone again), random parent-first arrival order and finality progress, turned into new / undo / "
                        "irreversible / stalled steps by the REAL bstream/forkable and fed to the real tier1 pipeline (development and "
                        "production mode, start at, below or above the first forked height) on generated module programs whose stores "
                        "create, update, grow, shrink and delete keys; after every step the store map and sizes are logged; the response "
-                       "stream is replayed by the client model of TraceSystem.tla. Plus the undo events of the store driver. "
+                       "stream is replayed by the client model of TraceSystem.tla; then the client reconnects with the cursor of a "
+                       "message it received (orphaned or canonical block) and the client model continues over the resumed stream. "
+                       "Plus the undo events of the store driver. "
                        "Non-trivial = more than 3 fork steps; distinct by content.")
     run.assumptions += ["bstream/forkable is trusted as the producer of steps", "no fork branches directly off the initial LIB block "
                         "(forkable reports no junction for it when initialised from a bare reference: harness artefact)"]
